@@ -226,7 +226,7 @@ Definition serve_tile (ly : layer) (cached : list coord) (q : treq) : answer * l
            | WmtsRest => render ly cached mode_wmts (Some true)
                                 (match rfmt q with Some f => f | None => lfmt ly end) (rdims q) x y z
            | _ => if negb (rinfo_ok q) then (Err UnknownInfoFormat, [])
-                  else featureinfo ly None q x y z
+                  else featureinfo ly (Some true) q x y z
            end
     | _, _, _ => (Err BadRequest, [])
     end
